@@ -303,7 +303,8 @@ func (p *printVisitor) EnterOperationDefinition(ref int) {
 
 	switch p.document.OperationDefinitions[ref].OperationType {
 	case ast.OperationTypeQuery:
-		if hasName || hasVariables {
+		// the shorthand form is only legal for an anonymous query without variables, directives or description
+		if hasName || hasVariables || p.document.OperationDefinitions[ref].HasDirectives || p.document.OperationDefinitions[ref].Description.IsDefined {
 			p.write(literal.QUERY)
 		}
 	case ast.OperationTypeMutation:
